@@ -922,6 +922,55 @@ Proof.
     { destruct (Nat.lt_ge_cases (length (handed st)) L) as [Q|Q]; [exact Q|]. pose proof (pos_at_ge P _ Q). lia. }
     constructor; [|apply Readers; [auto|discriminate]|apply Writers; auto].
     destruct Ic. constructor; unfold M, stopped in *; cbn -[Nat.sub seq Nat.modulo]; auto; try discriminate; try lia.
-(*DBG*)
+    + rewrite Hr'. f_equal. lia.
+    + intros _. split; [lia|]. split; [f_equal; lia|]. split; [exact Eb|]. intros HW. specialize (HM HW). unfold M in HM. lia.
+    + intros w Hw. rewrite in_seq in Hw. lia.
+    + split; [congruence|]. intros [?|?]; discriminate.
+    + rewrite seq_S, map_app, rev_app_distr. simpl. rewrite <- co_handed0. reflexivity.
+    + intros [?|[?|?]]; discriminate.
+  - (* the end of the range *)
+    apply Nat.ltb_ge in Eb.
+    assert (HhL : length (handed st) = L).
+    { pose proof (co_hlen st Ic). destruct (Nat.eq_dec (length (handed st)) L) as [Q|Q]; [exact Q|].
+      pose proof (pos_at_lt P (length (handed st)) Hposs ltac:(lia)). lia. }
+    constructor; [|apply Readers; [discriminate|discriminate]|apply Writers; auto].
+    destruct Ic. constructor; unfold M, stopped in *; cbn -[Nat.sub seq Nat.modulo]; auto; try discriminate; try lia.
+    + rewrite Hr'. f_equal. lia.
+    + intros w Hw. rewrite in_seq in Hw. lia.
+    + split; [congruence|]. intros [?|?]; discriminate.
+    + intros [?|?]; discriminate.
+Qed.
+
+Theorem inv_step : forall st st' l, RingInv st -> step P st l = Some st' -> RingInv st'.
+Proof.
+  intros st st' l I H. destruct l.
+  - eapply inv_RTake; eauto.
+  - eapply inv_REnd; eauto.
+  - eapply inv_RWait; eauto.
+  - eapply inv_RExit; eauto.
+  - eapply inv_RSpur; eauto.
+  - eapply inv_WTake; eauto.
+  - eapply inv_WEnd; eauto.
+  - eapply inv_WWait; eauto.
+  - eapply inv_WExit; eauto.
+  - eapply inv_WSpur; eauto.
+  - eapply inv_CReadNext; eauto.
+  - eapply inv_CTaskRead; eauto.
+  - eapply inv_CTaskWait; eauto.
+  - eapply inv_CParityWrite; eauto.
+  - eapply inv_CParityWait; eauto.
+  - eapply inv_CWriteNext; eauto.
+  - eapply inv_CSpur; eauto.
+  - eapply inv_CBail; eauto.
+  - eapply inv_CStop; eauto.
+  - eapply inv_CJoin; eauto.
+Qed.
+
+Inductive reachable : state -> Prop :=
+| reach_init : reachable (init P)
+| reach_step : forall st l st', reachable st -> step P st l = Some st' -> reachable st'.
+
+Theorem inv_reachable : forall st, reachable st -> RingInv st.
+Proof. induction 1; [apply inv_init|eapply inv_step; eauto]. Qed.
 
 End Inv.
